@@ -81,7 +81,7 @@ Proof.
       intros G E e Eq. discriminate. }
   assert (D7: match rb with Some e => e | None => 0 end = bb \/ length g <= match rb with Some e => e | None => 0 end \/ rb = None).
   { destruct rb as [e|]; auto. simpl in R6. destruct R6 as (_&_&De). right. left. destruct De; lia. }
-  exists g7. split; auto. split.
+  rewrite L3. exists g7. split; auto. split.
   { destruct rb as [e|].
     - eapply grows_trans_gen; [exact G06 | exact Gr7 |]. destruct D7 as [D|[D|D]]; auto. discriminate.
     - destruct Gr7 as (LL&FF&_). destruct G06 as (L06&F06&B06). split; [lia|]. split.
